@@ -294,3 +294,72 @@ Example C19_nonvacuous_bytes :
   scan tblp tbl_crc (fun _ => None) None (fun _ _ _ => true) true bytewise c19_ex_bad = Some [] /\
   cblocks_of tblp tbl_crc (fun _ => None) None (fun _ _ _ => true) true bytewise c19_ex_bad = 1%N.
 Proof. vm_compute. repeat split; reflexivity. Qed.
+
+(* ====================================================================================================
+   WHOLE FUNCTION (Store/RepairSeqProofs.v): statements about recover_bytes itself, for every storage image with
+   one binding per file name. *)
+From GL Require Import Store.RepairSeqProofs.
+From GL Require Codec.SessionRecord Mem.MemDB Codec.Journal.
+
+(* C19_recover_seq_above_all (FULL for the model; supersedes C19_recover_seq_above_all_partial).  Whenever Recover
+   succeeds (read-write or read-only, any options, any journal and manifest bytes):
+   - there is exactly one log line per table file, in the order of the file numbers;
+   - each line's counters, sequence number and verdict are the stated function of the file's ORIGINAL bytes
+     (stat_of: the scan of that file, the good keys, corrupted keys, corrupted blocks, kept / rebuilt / dropped);
+   - the sequence number recoverTable recorded is what the session holds after the commit, and db.seq of the
+     returned DB is at or above it, hence at or above the sequence number of every good key of every table
+     that was registered (kept or rebuilt);
+   under the only hypothesis that no journal batch that the replay applied has "batchSeq + batchLen" >= 2^64
+   (os_kept is the list of applied batches).  That hypothesis is necessary: recoverJournal computes
+   "db.seq = batchSeq + uint64(batchLen)" in uint64 and a journal record whose header says
+   seq = 2^64 - 1, len = 1 with one record in its body is accepted and sets db.seq to 0. *)
+Theorem C19_recover_seq_above_all :
+  forall jcrc jp rp kp bhl mp tp tcrc compress decompress fname ufc verify wo fgen c o strict hts img r,
+  NoDup (map fst (si_files img)) ->
+  recover_bytes jcrc jp rp kp bhl mp tp tcrc compress decompress fname ufc verify wo fgen c o strict hts img = OOk r ->
+  (forall b, In b (os_kept (rr_state r)) -> (fst b + snd b < 2 ^ 64)%N) ->
+  map ts_num (rr_stats r) = table_files (si_files img) /\
+  (rr_maxseq r <= os_seq (rr_state r))%N /\
+  forall s, In s (rr_stats r) ->
+    exists all, scan tp tcrc decompress fname ufc verify c (img_file (si_files img) (ts_num s)) = Some all /\
+      stat_of kp tp tcrc decompress fname ufc verify c strict (ts_num s) (img_file (si_files img) (ts_num s)) all s /\
+      (stat_kept s = true -> (ts_seq s <= rr_maxseq r)%N /\
+         forall kv, In kv (good_of kp all) -> (key_seq kp (fst kv) <= os_seq (rr_state r))%N).
+Proof. exact recover_seq_above_all. Qed.
+Print Assumptions C19_recover_seq_above_all.
+
+(* The two halves it is made of: session.commit hands the record's sequence number to the session whichever way the
+   manifest is written; openDB's db.seq starts there and does not decrease (same hypothesis). *)
+Theorem C19_commit_hands_seq :
+  forall jcrc jp rp c n o rec st st' rec', seqset rp n rec ->
+  commit jcrc jp rp c o rec st = OOk (st', rec') -> s_seq (c_sess st') = n.
+Proof. exact commit_seq. Qed.
+Print Assumptions C19_commit_hands_seq.
+
+Theorem C19_open_rw_seq_monotone :
+  forall jcrc jp rp kp bhl mp tp tcrc compress snappy fgen blockSize ri c o hts cs r,
+  open_rw jcrc jp rp kp bhl mp tp tcrc compress snappy fgen blockSize ri c o hts cs = OOk r ->
+  (forall b, In b (os_kept r) -> (fst b + snd b < 2 ^ 64)%N) -> (s_seq (c_sess cs) <= os_seq r)%N.
+Proof. exact open_rw_seq. Qed.
+Print Assumptions C19_open_rw_seq_monotone.
+
+(* Non-vacuity: the image made of the model-written table of C19_nonvacuous_bytes (number 5) and its damaged copy
+   (number 7) has one binding per name; Recover succeeds on it with the generated constants; no batch was applied
+   (no journal); the log lines say "kept, 3 good keys, sequence number 9" and "dropped, one corrupted block";
+   db.seq = 9. *)
+From GL Require Import Gen.InstMem Gen.InstJournal Gen.InstRecord Gen.Consts.
+Definition c19_ex_img : simage := mkSI None [((SW.FTable, 5%N), c19_ex_data); ((SW.FTable, 7%N), c19_ex_bad)].
+Definition c19_ex_recover : ores rbres :=
+  recover_bytes jcrc jp rp kp ldb_batchHeaderLen mp tblp tbl_crc (fun x => x) (fun _ => None) None (fun _ _ _ => true) true
+    c19_ex_wo None bytewise (mkOO false false true 4194304%Z 67108864%Z false false false [117%N]) false [] c19_ex_img.
+Example C19_nonvacuous_whole :
+  NoDup (map fst (si_files c19_ex_img)) /\
+  exists r, c19_ex_recover = OOk r /\ os_kept (rr_state r) = [] /\
+    map (fun s => (ts_num s, ts_verdict s, ts_good s, ts_cblocks s, ts_seq s)) (rr_stats r) =
+      [(5, TKept, 3, 0, 9); (7, TDropped, 0, 1, 0)]%N /\
+    rr_maxseq r = 9%N /\ os_seq (rr_state r) = 9%N /\ layout_of (rr_state r) = [[5%N]].
+Proof.
+  split.
+  - cbn. repeat constructor; cbn; intuition congruence.
+  - eexists. split; [vm_compute; reflexivity|]. vm_compute. repeat split; reflexivity.
+Qed.
